@@ -30,6 +30,10 @@ def subset (x y : Box) : Bool := isEmpty x || (!isEmpty y && all2 Itv.subset x y
 def strictSubset (x y : Box) : Bool :=
   !isEmpty y && (isEmpty x || (all2 Itv.subset x y && any2 (fun a b => a != b) x y))
 def interiorSubset (x y : Box) : Bool := isEmpty x || (!isEmpty y && all2 Itv.interiorSubset x y)
+/-- interior subset and different -/
+def strictInteriorSubset (x y : Box) : Bool :=
+  !isEmpty y && (isEmpty x || (all2 Itv.interiorSubset x y && any2 (fun a b => a != b) x y))
+def relInteriorSubset (x y : Box) : Bool := isEmpty x || (!isEmpty y && all2 Itv.relInteriorSubset x y)
 def intersects (x y : Box) : Bool := !isEmpty x && !isEmpty y && all2 Itv.intersects x y
 /-- the intersection has a non-null volume: every component overlaps -/
 def overlaps (x y : Box) : Bool := !isEmpty x && !isEmpty y && all2 Itv.overlaps x y
